@@ -72,6 +72,15 @@ Theorem C16cs_codec : forall al fs vs, valid (CNested fs) (VStruct vs) = true ->
 Proof. exact cs_codec. Qed.
 Print Assumptions C16cs_codec.
 
+(* the encoding is: per field its padding of 0xFF bytes then the field's own encoding; then 0xFF up to the size *)
+Theorem C16cs_serialize_form : forall al fs vs b, cs_serialize al fs vs = Some b ->
+  exists chunks, Forall2 (fun fv c => ser al (fst fv) (snd fv) = Some c) (combine fs vs) chunks /\
+    length vs = length fs /\
+    let body := interleave (cs_padded al fs) chunks in
+    b = body ++ repeat padding_byte (cs_size al fs - length body).
+Proof. exact cs_serialize_form. Qed.
+Print Assumptions C16cs_serialize_form.
+
 Theorem C16cs_serialize_defined_iff_valid : forall al fs vs,
   valid (CNested fs) (VStruct vs) = true <-> exists b, cs_serialize al fs vs = Some b.
 Proof. exact cs_serialize_defined_iff_valid. Qed.
